@@ -72,6 +72,8 @@ def roundtrip(r):
         data = codecs.encode(text, "css", encoding=e) if hasattr(codecs, "_x") else cc.encode(text, encoding=e)[0]
         if r["mode"] == "given":
             back = cc.decode(data, encoding=e)[0]
+        elif r["mode"] == "given-noforce":
+            back = cc.decode(data, encoding=e, force=False)[0]
         else:
             back = cc.decode(data)[0]
         cs, b = split_text(back)
@@ -85,6 +87,9 @@ def roundtrip(r):
 def chunk_text(r):
     e = r["enc"]
     t = r["text"]
+    if e == "iso-2022-jp":
+        body = "a { left: 0 } /* \u65e5\u672c\u8a9e"      # ends in the shifted state: the final flush returns to ASCII
+        return body if t == "plain" else ('@charset "%s";\n%s' % (e, body) if t == "rule" else ('@charset "%s' % e if t == "rulecut" else ""))
     body = "a { content: \"é\" } b { left: 0 }" if e in ("iso-8859-1", "cp1252") else (
         "a { content: \"я\" } b { left: 0 }" if e == "koi8-r" else "a { content: \"é中\U0001F600\" } b { left: 0 }")
     if t == "plain":
